@@ -109,9 +109,20 @@ func findChargeSites(fs []*ssa.Function, linkBudget *types.Var, errT *types.Name
 					case engine.Before(ld, dec) || engine.Before(ifi, dec):
 						post = false
 					default:
-						cs.why = "cannot order the budget test relative to the decrement"
-						out = append(out, cs)
-						continue
+						// neither dominates the other (the test sits in a short-circuit operand, the decrement
+						// under a repeated nil check): order them by reachability
+						toDec, _ := engine.CanReach(ld, func(in ssa.Instruction) bool { return in == ssa.Instruction(dec) }, nil)
+						toLd, _ := engine.CanReach(dec, func(in ssa.Instruction) bool { return in == ssa.Instruction(ld) }, nil)
+						switch {
+						case toDec && !toLd:
+							post = false
+						case toLd && !toDec:
+							post = true
+						default:
+							cs.why = "cannot order the budget test relative to the decrement"
+							out = append(out, cs)
+							continue
+						}
 					}
 				}
 				if post {
